@@ -6,6 +6,8 @@ verus! {
 //%% include prelude/env.rs
 //%% include prelude/ddnnfptr.rs
 //%% include-assumed inc/bddptr.rs
+//%% include trusted/literal.rs
+//%% include trusted/lit_iter.rs
 //%% include inc/dnnf.rs
 } // verus!
 fn main() {}
